@@ -34,6 +34,10 @@ TAGS = {
     14: 'storing a model whose key has no pending transaction fails after the restart',
     16: 'an annotation is not read back verbatim',
     17: 'log messages are not read back verbatim and in order',
+    18: 'tool results stored successfully are not read back after the restart',
+    21: 'two concurrent writers: the model database is that of neither serial order',
+    22: 'two concurrent writers: name links / annotations are those of neither serial order',
+    23: 'two concurrent writers: a writer raised',
 }
 CORR = (1, 2, 3, 4, 5, 6, 7)
 # oracle tag -> [(guard tag that must be present (= guard false), finding id)]
@@ -44,10 +48,11 @@ ORACLE = {
     14: [],
     16: [(201, 'C16-ANNOT-NAME-SPACE')],
     17: [(202, 'C16-LOG-NUL'), (206, 'C16-LOG-TORN')],
+    18: [(209, 'C16-RESULTS-TORN')],
 }
 
 TOP = {'.modeldb': 'CDb', 'models': 'CModels', 'annotations': 'CAnnot', 'annotations.lock': 'CAnnotLock',
-       'annotations.tmp': 'CAnnotTmp',
+       'annotations.tmp': 'CAnnotTmp', 'results.json': 'CResJson', 'results.csv': 'CResCsv',
        'log.csv': 'CLog', 'log.lock': 'CLogLock', 'subcontexts': 'CSub', 'common_options': 'CCommon'}
 KEYFILES = {'.pharmpy': 'CPharmpy', 'model.ctl': 'CModelFile'}
 METAFILES = {'PENDING': 'CPending', 'results.json': 'CResults', 'metadata.json': 'CMetadata'}
@@ -73,6 +78,14 @@ class Canon:
 
     def comp(self, parts, i):
         s = parts[i]
+        if parts[0] == 'subcontexts' and len(parts) >= 2:
+            # subcontexts/<s>/... : the same layout one level down
+            if i == 0:
+                return 'CSub'
+            if i == 1:
+                return f'(CName {self.s(s)})'
+            if parts[2] != '.modeldb':
+                return self.comp(parts[2:], i - 2)
         if i == 0:
             return TOP.get(s) or f'(COther {self.s(s)})'
         if parts[0] == 'models' and i == 1:
@@ -144,6 +157,16 @@ class Canon:
             return f'(WGetAnnot {self.s(it[1])})'
         if k == 'getlog':
             return 'WGetLog'
+        if k == 'subinit':
+            return f'(WSubInit {self.s(it[1])})'
+        if k == 'substore':
+            return f'(WSubStore {self.s(it[1])} {self.mdl(models[it[2]])})'
+        if k == 'subretrieve':
+            return f'(WSubRetrieve {self.s(it[1])} {self.s(it[2])})'
+        if k == 'results':
+            return f"(WResults {ct.opt(None if it[1] is None else self.s(it[1]))} {self.n(it[2])})"
+        if k == 'getresults':
+            return f"(WGetResults {ct.opt(None if it[1] is None else self.s(it[1]))})"
         raise ValueError(k)
 
     def expect(self, it, models):
@@ -219,6 +242,8 @@ class Canon:
         v = o['val']
         if 'text' in v:
             return f"(VStr {self.s(v['text'])})"
+        if 'res' in v:
+            return f"(VRes {self.n(v['res'])})"
         if 'cells' in v:
             if any(c[0] == 'typed' for c in v['cells']):
                 return 'VLogTyped'
@@ -341,6 +366,22 @@ def recovery_items(spec_w1, models, extra_stores=True):
     for nm in anames:
         w2.append(['getannot', nm])
     w2.append(['getlog'])
+    subs, sublast, ress = [], {}, []
+    for it in spec_w1:
+        if it[0] in ('subinit', 'substore', 'subretrieve') and it[1] not in subs:
+            subs.append(it[1])
+        if it[0] == 'substore':
+            sublast[(it[1], models[it[2]]['name'])] = it[2]
+        if it[0] in ('results', 'getresults') and it[1] not in ress:
+            ress.append(it[1])
+            if it[1] is not None and it[1] not in subs:
+                subs.append(it[1])
+    for sname in subs:
+        w2.append(['subinit', sname])
+    for (sname, nm), mk in sublast.items():
+        w2.append(['subretrieve', sname, nm, mk])
+    for cx in ress:
+        w2.append(['getresults', cx])
     if extra_stores:
         for mk in sorted(models):
             if mk.startswith('post_'):
@@ -375,7 +416,13 @@ def fixed_workloads():
                     'D': mspec('data', 'dat', 'third')},
          'w1': [['init'], ['store', 'T'], ['meta', 'T', 7], ['log', 'warning', 'q"uo"te, comma', 'T'], ['store', 'P'],
                 ['log', 'error', 'second\nline', None], ['dbstore', 'D']]}
-    return [A, B, C]
+    # subcontexts, the 'final' / 'input' entries, tool results of the top level context and of a subcontext
+    S = {'models': {'P': mspec('pheno', 'input', 'the input model'), 'F': mspec('init', 'final', 'the final model'),
+                    'Q': mspec('pheno', 'cand1', 'candidate in sub')},
+         'w1': [['init'], ['store', 'P'], ['subinit', 'search'], ['substore', 'search', 'Q'], ['substore', 'search', 'F'],
+                ['results', 'search', 1], ['log', 'info', 'sub done', 'F'], ['store', 'F'], ['results', None, 2],
+                ['results', None, 3]]}
+    return [A, B, C, S]
 
 
 # names in prefix relation, differing in case only, with regex-special characters
@@ -459,7 +506,8 @@ def crash_points(events, dense=True):
         if e['ev'] == 'open' and (fl & os.O_ACCMODE) == os.O_WRONLY and fl & (os.O_TRUNC | os.O_APPEND):
             rel = e['path']
             blob = bool(W.BLOB_NAMES.search(rel)) and '.hash' not in rel.split('/')
-            for j in ((2,) if blob else (0, 9)) if dense else ((2,) if blob else (9,)):
+            two = bool(re.search(r'results\.(json|csv)$', rel))
+            for j in ((1,) if two else (2,) if blob else (0, 9)) if dense else ((1,) if two else (2,) if blob else (9,)):
                 pts.append((k, j))
     return sorted(set(pts), key=lambda p: (p[0], -1 if p[1] is None else p[1]))
 
@@ -474,8 +522,8 @@ def light(spec):
     return c
 
 
-def two_item_workloads():
-    """every workload of one or two items over a 7-item alphabet (thorough tier)"""
+def two_item_workloads(three=False):
+    """every workload of one or two (three=True: exactly three) items over a 7-item alphabet (thorough tier)"""
     models = {'A': mspec('pheno', 'a', 'first'), 'B': mspec('init', 'b', 'shares the dataset'),
               'C': mspec('pheno', 'c', 'same key as a'), 'D': mspec('data', 'd', 'other dataset', res=True)}
     alphabet = [['store', 'A'], ['store', 'B'], ['store', 'C'], ['dbstore', 'D'], ['meta', 'A', 3],
@@ -485,6 +533,8 @@ def two_item_workloads():
         out.append([x])
         for y in alphabet:
             out.append([x, y])
+    if three:
+        out = [[x, y, z] for x in alphabet for y in alphabet for z in alphabet]
     res = []
     for items in out:
         used = {it[1] for it in items if it[0] in ('store', 'dbstore', 'meta')} | {'A', 'B'}
@@ -567,8 +617,52 @@ def strip(spec):
     return {k: spec[k] for k in ('models', 'w1', 'crash', 'torn', 'w2') if k in spec}
 
 
+def concurrent_specs(ctx, n):
+    models = {'P': mspec('pheno', 'p', 'first'), 'I': mspec('init', 'i', 'shares the dataset'),
+              'D': mspec('data', 'd', 'other dataset', res=True), 'T': mspec('ditype', 't', 'other datainfo')}
+    out = []
+    for k in range(n):
+        a, b = [('P', 'I'), ('P', 'D'), ('I', 'D'), ('D', 'T')][k % 4]
+        pre = [['init']] + ([['store', 'T']] if k % 3 == 2 and 'T' not in (a, b) else [])
+        out.append({'models': models, 'pre': pre, 'a': [['init'], ['store', a]], 'b': [['init'], ['store', b]],
+                    'seed': ctx.rng.randrange(10 ** 6)})
+    return out
+
+
+def run_concurrent(ctx, specs, label):
+    """two real processes store at the same time; the final tree is compared inside Coq with both serial orders"""
+    base = ctx.rundir / 'fs' / label
+    pool()
+    obs = list(_POOL['p'].map(W.run_concurrent, [(str(base / f'c{i}'), s) for i, s in enumerate(specs)], chunksize=1))
+    terms = []
+    for s, o in zip(specs, obs):
+        if 'harness_error' in o:
+            raise RuntimeError('C16 concurrent worker failed: ' + o['harness_error'])
+        cn = Canon(vinfo())
+        cn.models = s['models']
+        ok = all(o['outs'][w] is not None and all(x['ok'] for x in o['outs'][w]) for w in ('a', 'b'))
+        terms.append('(mkCC ' + ct.lst([cn.item(i, s['models']) for i in s['pre']]) + ' '
+                     + ct.lst([cn.item(i, s['models']) for i in s['a']]) + ' '
+                     + ct.lst([cn.item(i, s['models']) for i in s['b']]) + '\n  ' + cn.tree(o['tree']) + ' '
+                     + ct.boolean(ok) + ')')
+    verdicts = ctx.run_cases(label, IMPORTS, 'ccase', terms, 'cverdict', shard=12, timeout=900)
+    for s, o, v in zip(specs, obs, verdicts):
+        for t in v:
+            ctx.violation(TAGS[t], {'concurrent': s, 'tags': v, 'outs': o['outs']})
+    return obs, verdicts
+
+
 def finding_probes(ctx):
-    fs = [f for f in ctx.findings if f.get('status') == 'open']
+    conc = [f for f in ctx.findings if f.get('status') == 'open' and f['witness'].get('kind') == 'concurrent']
+    for f in conc:
+        pool()
+        o = W.run_concurrent((str(ctx.rundir / 'fs' / ('finding-' + f['id'])), f['witness']))
+        errs = sorted(x.get('err') for w in ('a', 'b') for x in (o.get('outs', {}).get(w) or []) if not x['ok'])
+        if errs == f['witness']['expect_errors']:
+            ctx.known(f['id'])
+        else:
+            ctx.notes.append(f"finding_not_reproduced {f['id']} (errors {errs})")
+    fs = [f for f in ctx.findings if f.get('status') == 'open' and f['witness'].get('kind') != 'concurrent']
     if not fs:
         return
     specs = [dict(f['witness']) for f in fs]
@@ -594,6 +688,9 @@ def run(ctx):
         'bijection with the model\'s blobs; their meaning is checked by the retrieval oracle (parameters, statements, '
         'random variables, datainfo, dataset, name, description, results of the retrieved entry equal the stored one)',
         'pharmpy.workflows.contexts.baseclass.datetime is replaced by a fixed clock in the child processes (harness side)',
+        'two-writer runs: two forked processes started by a pipe signal, random sleeps inside the audit hook; the final tree '
+        'is compared inside Coq with both serial orders (C16/Check.v cverdict); the bounded interleaving theorem assumes the '
+        'locked section atomic (property C15)',
     ]
     ctx.assumptions += [
         'durability is not covered: a completed write/close is assumed to be on disk (the code never calls fsync)',
@@ -601,7 +698,7 @@ def run(ctx):
         'operation (mkdir, create, unlink, symlink, rename) is atomic',
         'single writer: concurrent transactions are excluded by the database-wide lock (property C15)',
         'ModelHash / DatasetHash are collision free (keys and dataset hashes are abstract identifiers in the model)',
-        'only top-level contexts (no subcontexts), NONMEM models (model.ctl), UTF-8 encodable text; model descriptions '
+        'one level of subcontexts, NONMEM models (model.ctl), UTF-8 encodable text; model descriptions '
         'are valid NONMEM titles (write_model raising inside the transaction is not modelled)',
     ]
     ctx.coverage['source_sha'] = source_sha(
@@ -650,8 +747,17 @@ def run(ctx):
             s3, o3 = expand_crashes(ctx, two_item_workloads(), 'two', dense=False, limit=10, lighten=True)
             specs += s3
             obs += o3
+            s4, o4 = expand_crashes(ctx, two_item_workloads(three=True), 'three', dense=False, limit=2, lighten=True)
+            specs += s4
+            obs += o4
+            ctx.coverage['three_item_workloads'] = 343
             ctx.coverage['exhaustive_note'] = ('every workload of 1 or 2 items over a 7-item alphabet (56 workloads) with 10 '
-                                               'sampled crash points each; workloads of 3-4 items are sampled, not enumerated')
+                                               'sampled crash points each; every workload of exactly 3 items over the same alphabet (343 workloads) with 2 '
+                                               'sampled crash points each; workloads of 4 items are sampled')
+        cobs, cverd = run_concurrent(ctx, concurrent_specs(ctx, 8 if quick else 80), 'conc')
+        ctx.coverage['concurrent_writer_runs'] = len(cverd)
+        ctx.coverage['concurrent_annotation_orders'] = _hist(
+            next((x[2][0] for x in o['tree'] if x[0] == 'annotations'), '?').split(' ')[0] for o in cobs)
         ctx.log(f'{len(specs)} cases run on the implementation; comparing inside Coq')
         kept, kept_obs, verdicts = verdicts_of(ctx, specs, obs, 'gen')
         ctx.log('verdicts computed')
@@ -674,7 +780,7 @@ def run(ctx):
             'events_w2_total': sum(len(o['ev2']) for o in kept_obs),
             'recovery_item_errors': _hist(o2_['err'] for o in kept_obs for o2_ in o['out2'].values() if not o2_['ok']),
             'w1_item_errors': _hist(o1_['err'] for o in kept_obs for o1_ in o['out1'].values() if not o1_['ok']),
-            'guard_false': {str(g): sum(1 for v in verdicts if g in v) for g in (201, 202, 204, 206, 207, 208)},
+            'guard_false': {str(g): sum(1 for v in verdicts if g in v) for g in (201, 202, 204, 206, 207, 208, 209)},
             'oracle_tags': {str(t): sum(1 for v in verdicts if t in v) for t in ORACLE},
             'inconclusive_subchecks': sum(1 for v in verdicts for t in v if t >= 1000),
             'workload_lengths': _hist(len(s['w1']) for s in kept),
